@@ -226,7 +226,43 @@ type namespace struct {
 // oddNames: renames that are names like any other for the library, but look
 // like something else: punctuation only, the option words, what encoding/json
 // reads as "skip", wildcards, variable syntax, blanks, upper case.
-var oddNames = []string{"-", "--", "_", "*", "**", "$x", "${a}", " ", "with space", "UPPER", "ключ", "a\tb", "#", "@", "~", "!", "%", "&", "|", "=", "<>", "?", "/", "'", ":", ";", "(", "{}", "[", "]", "inline", "ignore", "squash", "merge", "replace", "append", "-x", "+", "^"}
+var oddNames = []string{"-", "--", "__", "*", "**", "$x", "${a}", " ", "with space", "UPPER", "ключ", "a\tb", "#", "@", "~", "!", "%", "&", "|", "=", "<>", "?", "/", "'", ":", ";", "(", "{}", "[", "]", "inline", "ignore", "squash", "merge", "replace", "append", "-x", "+", "^"}
+
+// One namespace never gets a name twice by accident (only the same-name twins
+// do that, on purpose): the keys of maps - an inline map shares the namespace
+// of its siblings - are disjoint from everything a field can be called.
+func init() {
+	keys := map[string]bool{}
+	for _, k := range append(append([]string{}, mapKeys...), dotKeys...) {
+		keys[k] = true
+	}
+	names := append([]string{}, oddNames...)
+	for _, n := range fieldPool {
+		names = append(names, strings.ToLower(n), "n"+n, "t"+n, "l"+n, "w"+strings.ToLower(n))
+	}
+	for _, p := range dottedParents {
+		names = append(names, segments(p, true)...)
+	}
+	for _, t := range libStructs {
+		for i := 0; i < t.NumField(); i++ {
+			if f := t.Field(i); f.PkgPath == "" {
+				names = append(names, cfgName(f, parseTag(f.Tag)))
+			}
+		}
+	}
+	seen := map[string]bool{}
+	for _, n := range oddNames {
+		if seen[n] {
+			panic("c06: unusual name listed twice: " + n)
+		}
+		seen[n] = true
+	}
+	for _, n := range names {
+		if keys[n] {
+			panic("c06: " + strconv.Quote(n) + " is both a map key and a field name of the generator")
+		}
+	}
+}
 
 // cfgTag spells the config key of a struct tag.
 func cfgTag(value string) string { return "config:" + strconv.Quote(value) }
